@@ -458,11 +458,18 @@ func (t *SymbolTable) GetOpt(s Strings) grammar.NonTerminal {
 	defer t.Unlock()
 
 	e, ok := t.strings.table.Get(s)
-	if ok {
+	if ok && e.Opt != "" {
 		return e.Opt
 	}
 
 	opt := t.mapStringToNoneTerminal(s, "opt")
+
+	// The same strings may already have an entry created for a different operator.
+	if ok {
+		e.Opt = opt
+		return opt
+	}
+
 	t.strings.table.Put(s, &stringsEntry{
 		Opt: opt,
 	})
@@ -477,11 +484,18 @@ func (t *SymbolTable) GetGroup(s Strings) grammar.NonTerminal {
 	defer t.Unlock()
 
 	e, ok := t.strings.table.Get(s)
-	if ok {
+	if ok && e.Group != "" {
 		return e.Group
 	}
 
 	group := t.mapStringToNoneTerminal(s, "group")
+
+	// The same strings may already have an entry created for a different operator.
+	if ok {
+		e.Group = group
+		return group
+	}
+
 	t.strings.table.Put(s, &stringsEntry{
 		Group: group,
 	})
@@ -496,11 +510,18 @@ func (t *SymbolTable) GetStar(s Strings) grammar.NonTerminal {
 	defer t.Unlock()
 
 	e, ok := t.strings.table.Get(s)
-	if ok {
+	if ok && e.Star != "" {
 		return e.Star
 	}
 
 	star := t.mapStringToNoneTerminal(s, "star")
+
+	// The same strings may already have an entry created for a different operator.
+	if ok {
+		e.Star = star
+		return star
+	}
+
 	t.strings.table.Put(s, &stringsEntry{
 		Star: star,
 	})
@@ -515,11 +536,18 @@ func (t *SymbolTable) GetPlus(s Strings) grammar.NonTerminal {
 	defer t.Unlock()
 
 	e, ok := t.strings.table.Get(s)
-	if ok {
+	if ok && e.Plus != "" {
 		return e.Plus
 	}
 
 	plus := t.mapStringToNoneTerminal(s, "plus")
+
+	// The same strings may already have an entry created for a different operator.
+	if ok {
+		e.Plus = plus
+		return plus
+	}
+
 	t.strings.table.Put(s, &stringsEntry{
 		Plus: plus,
 	})
